@@ -34,9 +34,9 @@ THEOREMS = [
     # refinement (T16): the definitions generated from sholl.py / tree.py / compartment.py / feature_extractor.py on this run
     "RefineSholl.segments_refines", "RefineSholl.compartments_get_ndata_refines", "RefineSholl.init_refines", "RefineSholl.init_single",
     "RefineSholl.intersect_refines", "RefineSholl.get_arr_refines", "RefineSholl.get_arr_eq_intersect", "RefineSholl.get_int_refines",
-    "RefineSholl.get_rs_self_int_eq", "RefineSholl.population_refines",
+    "RefineSholl.get_rs_self_int_eq", "RefineSholl.population_refines", "RefineSholl.populations_refines",
     "C10.generated_sholl_init", "C10.generated_sholl_init_single", "C10.generated_sholl_intersect", "C10.generated_sholl_get",
-    "C10.generated_sholl_get_steps", "C10.generated_population_rows",
+    "C10.generated_sholl_get_steps", "C10.generated_population_rows", "C10.generated_populations_blocks", "C10.generated_populations_empty",
 ]
 TRUSTED = ["hand-written models Model/Features.lean (lengths as sums of edge lengths, counts, orders, Sholl straddle rule), tied by the c10.features correspondence "
            "(exact on lattice trees whose edges are axis-aligned with integer length); partition_asymmetry is regenerated from lmeasure.py (Gen/LMeasureArith.lean)"]
